@@ -18,6 +18,7 @@ RULE = (
     "random draw. Each module is checked in both contexts (Synth(mod) and inside a one-module project), through clone(), and the two contexts are "
     "compared with each other (write_to vs read, path vs stream loads too); the first clone and the first loaded copy are then edited inside their containers and the original is cloned / its file loaded again (later copies must equal the original); a family nests MetaModules 2-4 levels deep; half of the cases continue with a second recipe applied to the same, already saved and cloned objects (second generation) and to the clone and the loaded copy, which are saved and cloned in turn. distinct = recipe hash; non-trivial = a controller at a range end / negative-min controller at its minimum / "
     "unit-dependent controller set, or a non-default payload, option or binding"
+    ' Also (added while the seeded-change rounds of DESIGN section 9 ran): Also: files written as older SunVox versions in the project context, failed saves in the past, an empty nested synth refused and then completed, large payloads, alternative writers / loaders (offset streams, mmap, unbuffered files, paths) and Python copies.'
 )
 ASSUMPTIONS = [
     "equality is on vlib.snapshot's public-attribute snapshot with its documented normalisations",
